@@ -27,6 +27,7 @@ RULE = (
     "info, warning, error} x (message,args) in 6 forms (incl. an argument whose __str__ raises: never-raises only) x optional exception; non-trivial = the "
     "call is made inside a nested scope, or the name / message needs %-handling"
 )
+RULE += ' Round 19: own trace ids of 36 and 55 characters on odd nodes.'
 RULE += ' Rounds 10-13: LONG names (64-1000 characters); MANY scopes (9-40 (100) nodes as chain, star, sequences of outermost scopes) with unique identifiers and fresh trace ids; concurrent siblings yielding inside their scopes.'
 ASSUMPTIONS = [
     "records are captured by a handler on the root logger (loggers propagate); logger identity = record.name",
@@ -79,6 +80,16 @@ _root.setLevel(logging.DEBUG)
 def _node_opts(names, traces=(0, 1, 2)):
     # trace option: 0 = not given, 1 = own id (containing '%'), 2 = given as the empty string
     return [(lg, tr, nm) for lg in (False, True) for tr in traces for nm in names]
+
+
+def _own_trace(i: int) -> str:
+    """caller-supplied trace ids: a short one with formatting characters (even nodes), a 36-character
+    uuid form / a 55-character W3C traceparent form (odd nodes)"""
+    if i % 2 == 0:
+        return f"trace-n{i}-100%s"
+    if i % 4 == 1:
+        return f"0af76519-16cd-43dd-8448-eb211c8031{i:02d}"
+    return f"00-0af7651916cd43dd8448eb211c80319c-b7ad6b71692033{i:02d}-01"
 
 
 def programs(tier: str):
@@ -340,7 +351,7 @@ def execute(program, ch: Chooser) -> Result:  # noqa: C901, PLR0915
 
     def expected_trace(i: int) -> tuple[str, object]:
         if nodes[i]["opt"][1] == 1:
-            return ("own", f"trace-n{i}-100%s")
+            return ("own", _own_trace(i))
         if nodes[i]["parent"] is not None:
             return ("parent", nodes[i]["parent"])  # whatever id the enclosing scope really has
         return ("fresh", None)
@@ -415,7 +426,7 @@ def execute(program, ch: Chooser) -> Result:  # noqa: C901, PLR0915
         elif lg:
             kwargs["logger"] = logging.getLogger(f"own.n{i}")
         if tr == 1:
-            kwargs["trace_id"] = f"trace-n{i}-100%s"
+            kwargs["trace_id"] = _own_trace(i)
         elif tr == 2:
             kwargs["trace_id"] = ""
         # the logger's level at scope creation is more restrictive than at log time
